@@ -297,3 +297,45 @@ def mode_params(mode):
 def std_labels(out, m):
     for k, v in m.labels().items():
         out.label(k, v)
+
+
+def full_script(sc, k, m, cfg, rnd, n_hist=4, n_pairs=10, n_strings=24, limit=24, ref=False, sweep=True):
+    """Moderate script over every item the configuration enables (used by the cross-configuration
+    properties: C02, C09, C10, C16, C18). Lines are a pure function of (m, enabled items, rnd)."""
+    idxs = pick_idxs(m, rnd, limit)
+    sc_cast(sc, k, m, idxs[:8])
+    sc_into(sc, k, m, cfg, idxs)
+    ns = boundary_values(m, rnd)
+    if len(ns) > 40:
+        ns = sorted(set(rnd.sample(ns, 40)) | {m.min, m.max})
+    sc_try_from(sc, k, m, cfg, ns, sweep=sweep)
+    sc_str(sc, k, m, cfg, idxs)
+    if E.enabled(cfg, "from_str") or E.enabled(cfg, "FromStr"):
+        strings = near_miss_strings(m, rnd, limit_names=4)
+        names = list(dict.fromkeys(m.names))
+        if len(strings) > n_strings:
+            strings = rnd.sample(strings, n_strings)
+        strings = sorted(set(strings) | set(names if len(names) <= 12 else rnd.sample(names, 12)))
+        sc_from_str(sc, k, m, cfg, strings)
+    sc_minmax(sc, k, m, cfg)
+    sc_next(sc, k, m, cfg, idxs)
+    hists = [rand_history(rnd, m.n) for _ in range(n_hist)] + [["l", "collect"]]
+    sc_iter(sc, k, m, cfg, hists, ref=ref)
+    if E.enabled(cfg, "range"):
+        pairs = all_pairs_or_sample(m, rnd, limit=n_pairs)
+        trip = []
+        for (i, j) in pairs:
+            sub = len(m.range_values(i, j))
+            trip.append((i, j, ["l"] + rand_history(rnd, sub, max_len=6)))
+        sc_range(sc, k, m, cfg, trip, ref=ref)
+    sc_names(sc, k, m, cfg, hists[:3], ref=ref)
+
+
+def script_for_modules(m, cfgs, rnd_seed, **kw):
+    """The same script (same PRNG stream) for several configurations of one declaration.
+    Returns an emit.Script whose module k uses cfgs[k]."""
+    import random as _r
+    sc = E.Script()
+    for k, cfg in enumerate(cfgs):
+        full_script(sc, k, m, cfg, _r.Random(rnd_seed), **kw)
+    return sc
